@@ -212,6 +212,13 @@ def gen_stream_inputs(args) -> dict:
     path, lo, hi, seed = args
     classes = sorted(project.all_entity_classes(), key=project.sid_of)
     payloads = [c for c in classes if getattr(c, "__type__").name in ("request", "response")]
+    from .absval import BLOBISH
+
+    def has_bytes(schema):
+        return any((f["kind"] == "struct" and has_bytes(f["sub"])) or (f["kind"] == "prim" and f["ktype"] in BLOBISH
+                                                                       and f["ktype"] != "string")
+                   for f in schema["fields"])
+    blobby = [c for c in payloads if has_bytes(project.project_schema(c))]
     schemas, seqs, enc_cases = {}, [], []
     for i in range(lo, hi):
         r = random.Random(seed * 9176 + i)
@@ -219,7 +226,8 @@ def gen_stream_inputs(args) -> dict:
         def add(cls, prof):
             schema = project.project_schema(cls)
             schemas[schema["sid"]] = schema
-            v = Sampler(r.randrange(10**9), profile=prof).value(schema, budget=60)
+            big = [65536, 70001, 131073] if prof == "big" else None
+            v = Sampler(r.randrange(10**9), profile=prof, big_lengths=big).value(schema, budget=60)
             var = codec_driver.sample_variant(r, canonical=(not schema["flex"]) or r.random() < 0.5)
             descs.append({"sid": schema["sid"], "value": v, "var": var})
             enc_cases.append({"id": f"s{i}m{len(descs) - 1}", "sid": schema["sid"], "value": v, "var": var})
@@ -227,6 +235,10 @@ def gen_stream_inputs(args) -> dict:
             pc = r.choice(payloads)
             for cls in (pc.__header_schema__, pc):
                 add(cls, r.choice(["mixed", "max", "min"]))
+        if i % 8 == 3:             # a payload of 64 KiB or more after other data (buffered sinks, chunked reads)
+            pc = r.choice(blobby)
+            add(pc.__header_schema__, "mixed")
+            add(pc, "big")
         if r.random() < 0.3:       # a lone nested / data entity in between: any class may be on the stream
             add(r.choice(classes), "mixed")
         pre = bytes(r.randrange(256) for _ in range(r.choice([0, 1, 5])))
